@@ -1,10 +1,20 @@
 HOOK_COMMITS = ["7de202d", "7f6c320"]
-FIX_COMMITS = ["7a73b90", "307c7cf", "73e9739", "b6ad768", "06a0422", "37593fd", "b26bda1", "ef4414e", "83534a3", "9d32858", "8df6799", "bfa46be", "d5169bc", "e984a30", "8e975df"]
+FIX_COMMITS = ["7a73b90", "307c7cf", "73e9739", "b6ad768", "06a0422", "37593fd", "b26bda1", "ef4414e", "83534a3", "9d32858", "8df6799", "bfa46be", "d5169bc", "e984a30", "8e975df", "0e9fd95"]
 
 NOTE_COMMON = ("Trusted: Lean kernel (axioms propext/Classical.choice/Quot.sound only), the hand-written model's "
                "fidelity outside the sampled correspondence, rustc/std and third-party crates as black boxes, the guarded hooks.")
 
 CLAIMS = {
+    "C01": {
+        "level": "Kernel-checked for every post-command buffer, every start cursor, every end cursor and every selection (hence every command, including failing "
+                 "and overshooting ones): the field is the graphemes between the two cursor positions, both included, clamped to the text; it is cut at grapheme "
+                 "boundaries (text = before ++ field ++ after); empty buffer gives the empty field; charwise/linewise/block selections give exactly the selected "
+                 "graphemes; the only panic (selection ending past the text) is excluded by the selection-inside-text invariant, with the pre-fix witness kept. "
+                 "Every run feeds the real read_field's own (start cursor, post text, real segmentation, end cursor, selection) to the model and compares the field, "
+                 "checks that motion/selection/yank commands leave the text byte-identical, and checks the field against the cursor-span / whole-line specification.",
+        "note": NOTE_COMMON + " PARTIAL: 'passive commands keep the text' is checked on the implementation for every generated command (and thorough: exhaustively on a small scope) but is not yet a theorem about the editor model; for text objects and block selections the selected text is the editor's own select_range.",
+        "technique": "Lean 4 proof parametric in the key engine (quantified over cursors, text and selection) + correspondence at read_field's boundary through the session hook",
+    },
     "C18": {
         "level": "Kernel-checked: the source's two flag tables (regenerated every run) put each documented short/long pair in one arm, are disjoint, and the scope "
                  "table covers every command flag; in the model parser a long spelling at the head of the remaining arguments takes exactly the step of its short "
